@@ -4,6 +4,7 @@ go 1.25.3
 
 require (
 	filippo.io/age v1.2.1
+	github.com/anishathalye/porcupine v1.3.0
 	go4.org v0.0.0-20230225012048-214862532bf5
 	golang.org/x/crypto v0.38.0
 	perkeep.org v0.0.0
